@@ -84,6 +84,35 @@ class Namer:
         raise ValueError(k)
 
 
+WIDE = {"u8": "u64", "u16": "u64", "i16": "i64", "i32": "i64", "u32": "u64"}
+
+
+def widen(N, t, tr):
+    """(type expression, literal) of a value that converts member-wise to the value `tr` of type t:
+    same member names in reverse order, wider integer types"""
+    k = t["k"]
+    if k == "int":
+        name = N.texpr(t)
+        return WIDE.get(name, name), str(int.from_bytes(bytes(tr["bs"]), "little"))
+    if k == "opt":
+        wt, _ = widen(N, t["sub"], {"bs": [0]} if t["sub"]["k"] == "int" else None)
+        if tr["k"] == "nil":
+            return "?" + wt, "nil"
+        return "?" + wt, widen(N, t["sub"], tr["p"])[1]
+    if k == "arr":
+        parts = [widen(N, t["sub"], e) for e in tr["es"]]
+        et = parts[0][0]
+        return "[%d]%s" % (t["n"], et), "%s.[%s]" % (et, ", ".join("%s.(%s)" % (et, p[1]) if et.startswith("?") and p[1] != "nil" else p[1] for p in parts))
+    if k in ("struct", "anonstruct"):
+        parts = [(i, widen(N, m[1], f)) for i, (m, f) in enumerate(zip(t["ms"], tr["fs"]))]
+        parts.reverse()
+        ty = "struct { %s }" % ", ".join("f%d: %s" % (i, p[0]) for i, p in parts)
+        name = "Wd%d" % len(N.decls)
+        N.decls.append("%s :: %s;" % (name, ty))
+        return name, "%s.{ %s }" % (name, ", ".join("f%d = %s" % (i, p[1]) for i, p in parts))
+    raise ValueError(k)
+
+
 def guard_lit():
     return "u8.[%s]" % ", ".join(str(g) for g in GUARD)
 
@@ -129,6 +158,9 @@ def render(N, n, c):
         L += ["    p := ^mut s.x;", "    v : %s = %s;" % (T, vb), "    p^ = v;"]
     elif kind == "cast":
         L += ["    w := %s;" % N.lit(t, c["tb"], twin=True), "    s.x = %s.(w);" % T]
+    elif kind == "castw":
+        wt, wl = widen(N, t, c["tb"])
+        L += ["    w : %s = %s;" % (wt, wl), "    s.x = %s.(w);" % T]
     elif elem:
         L += ["    v : %s = %s;" % (T, vb), "    s.x[%d] = v;" % (0 if kind == "elem0" else 1)]
     L += ["    emit(^s, %d); nl();" % (c["size"] + 8), "}"]
